@@ -1,4 +1,9 @@
-"""Explore one function under contract, discharge its obligations, aggregate by obligation name."""
+"""Explore one function under contract, discharge its obligations, aggregate by obligation name.
+
+With workers > 1 every worker process re-explores the paths (cheap) and discharges the obligations of its slice of
+the paths (z3 terms cannot cross process boundaries); the parent aggregates plain-data results.
+"""
+import multiprocessing
 import time
 
 import z3
@@ -10,8 +15,11 @@ from . import report
 class FunctionResult:
     def __init__(self):
         self.paths = []
-        self.by_name = {}       # name -> list of (verdict, model/reason, seconds, path index, formula)
+        self.instances = []
         self.unsupported = []
+        self.inlined = set()
+        self.assumed = set()
+        self.wall = 0.0
 
 
 def model_text(model, terms=None, limit=4000):
@@ -33,84 +41,166 @@ def model_text(model, terms=None, limit=4000):
     return txt
 
 
-def verify_function(chk, fname, entry, post=None, timeout_ms=10000, max_paths=4000, expect_paths=1,
-                    witness_terms=None, on_violation=None, known=None, path_timeout_ms=1500, deadline_s=None,
-                    allow_end_only=False):
-    """
-    entry(it) -> value            : sets up symbolic inputs and calls the real function
-    post(path) -> [(name, formula)] : postcondition instances for a terminated path (kind return/raise)
-    known: dict obligation-name -> (description, cls_fn) where cls_fn(path) -> z3 Bool: the finding's witness class;
-           the residual obligation `formula or in_class` must still be proved, else it is a violation
-    """
-    t0 = time.time()
-    fr = FunctionResult()
+_SPEC = None
+
+
+def _work_idx(w):
+    return _work(_SPEC + w)
+
+
+def _work(spec):
+    """Runs in a worker (or inline): returns plain-data results for its slice of the paths."""
+    (entry, post, known, witness_terms, on_violation, timeout_ms, max_paths, path_timeout_ms, deadline_s, widx, nworkers) = spec
     paths = E.explore(entry, max_paths=max_paths, timeout_ms=path_timeout_ms, deadline_s=deadline_s)
-    fr.paths = paths
-    bad = [p for p in paths if p.kind == 'unsupported']
-    if bad:
-        msgs = sorted({p.value for p in bad})
-        chk.obligation('%s.supported' % fname, fname, 'checker', report.ERROR, 0.0,
-                       detail='the real code of %s left the supported subset: %s' % (fname, '; '.join(msgs)[:1500]))
-        fr.unsupported = msgs
-    live = [p for p in paths if p.kind in ('return', 'raise')]
-    if len(live) < expect_paths and not allow_end_only:
-        chk.obligation('%s.vacuity' % fname, fname, 'checker', report.ERROR, 0.0,
-                       detail='only %d terminating paths explored (expected >= %d)' % (len(live), expect_paths))
+    out = {'paths': [(p.kind, p.describe()) for p in paths], 'instances': [], 'inlined': set(), 'assumed': set()}
+    unk_count = {}
+    for p in paths:
+        out['inlined'] |= p.run.inlined
+        out['assumed'] |= p.run.assumed
     for pi, p in enumerate(paths):
-        if p.kind == 'unsupported':
+        if p.kind == 'unsupported' or pi % nworkers != widx:
             continue
         obs = [(n, f, npc, nax, info) for (n, f, npc, nax, info) in p.run.obligations]
         if post is not None and p.kind in ('return', 'raise'):
-            for n, f in post(p):
-                obs.append((n, f, None, None, None))
+            for item in post(p):
+                n, f = item[0], item[1]
+                obs.append((n, f, None, None, 'lemma' if len(item) > 2 and item[2] == 'lemma' else None))
+        lemmas = []      # proved lemma formulas of this path (cut rule): available to later obligations of the path
         for n, f, npc, nax, info in obs:
             if isinstance(f, bool):
                 f = z3.BoolVal(f)
-            v, m, dt = E.discharge(p.run, f, npc, nax, timeout_ms=timeout_ms)
-            fr.by_name.setdefault(n, []).append((v, m, dt, pi, f))
-    for n, insts in fr.by_name.items():
-        tsum = sum(i[2] for i in insts)
-        sats = [i for i in insts if i[0] == 'sat']
-        unk = [i for i in insts if i[0] == 'unknown']
-        detail = {'instances': len(insts), 'paths': sorted({i[3] for i in insts})[:20]}
-        if sats:
-            v, m, dt, pi, f = sats[0]
-            p = paths[pi]
-            if known and n in known:
-                desc, cls_fn = known[n]
-                # residual obligation: the same obligation outside the finding's witness class must be proved
-                rest = []
-                for (v_, m_, dt_, pi_, f_) in sats + unk:
-                    c = cls_fn(paths[pi_])
-                    v2, m2, dt2 = E.discharge(paths[pi_].run, z3.Or(f_, c) if not isinstance(c, bool) else (z3.BoolVal(True) if c else f_),
-                                              timeout_ms=timeout_ms)
-                    tsum += dt2
-                    if v2 != 'unsat':
-                        rest.append((v2, m2, dt2, pi_, f_))
-                if not rest:
-                    chk.obligation(n, fname, 'z3', report.KNOWN, tsum, detail=detail, finding=desc)
-                    continue
-                sats2 = [i for i in rest if i[0] == 'sat']
-                if not sats2:
-                    detail['reason'] = 'residual obligation undecided: %s' % (rest[0][1],)
-                    chk.obligation(n, fname, 'z3', report.UNDECIDED, tsum, detail=detail)
-                    continue
-                v, m, dt, pi, f = sats2[0]
-                p = paths[pi]
-            txt = 'path %d (%s); events=%s\n' % (pi, p.describe(), [e[:3] for e in p.run.events][:30])
-            txt += model_text(m, witness_terms(p) if witness_terms else None)
-            replay, reproduced = (None, None)
-            if on_violation is not None:
-                try:
-                    replay, reproduced = on_violation(n, p, m)
-                except Exception as e:  # replay construction must never turn into a verdict
-                    replay, reproduced = ({'replay_error': repr(e)}, None)
-            detail['failing_path'] = p.describe()
-            chk.obligation(n, fname, 'z3', report.VIOLATED, tsum, detail=detail, model=txt, replay=replay, reproduced=reproduced)
-        elif unk:
-            detail['reason'] = str(unk[0][1])
-            chk.obligation(n, fname, 'z3', report.UNDECIDED, tsum, detail=detail)
-        else:
+            if unk_count.get(n, 0) >= 2:
+                # this obligation already timed out twice in this worker: do not burn the budget on every path
+                out['instances'].append({'name': n, 'verdict': 'unknown', 'dt': 0.0, 'pi': pi, 'describe': p.describe(),
+                                         'lemma': info == 'lemma', 'reason': 'skipped after repeated solver timeouts on other paths'})
+                continue
+            v, m, dt = E.discharge(p.run, f, npc, nax, timeout_ms=timeout_ms, extra=lemmas if npc is None else ())
+            if v != 'unsat' and lemmas and npc is None:
+                v2, m2, dt2 = E.discharge(p.run, f, npc, nax, timeout_ms=timeout_ms)
+                dt += dt2
+                if v2 == 'unsat' or v == 'unknown':
+                    v, m = v2, m2
+            inst = {'name': n, 'verdict': v, 'dt': dt, 'pi': pi, 'describe': p.describe(), 'lemma': info == 'lemma'}
+            if info == 'lemma' and v == 'unsat':
+                lemmas.append(f)
+            if v == 'unknown':
+                unk_count[n] = unk_count.get(n, 0) + 1
+            if v != 'unsat':
+                inst['reason'] = str(m)[:300] if v == 'unknown' else ''
+                if known and n in known:
+                    desc, cls_fn = known[n]
+                    c = cls_fn(p)
+                    res_f = z3.Or(f, c) if not isinstance(c, bool) else (z3.BoolVal(True) if c else f)
+                    v2, m2, dt2 = E.discharge(p.run, res_f, npc, nax, timeout_ms=timeout_ms, extra=lemmas if npc is None else ())
+                    inst['dt'] += dt2
+                    inst['residual'] = v2
+                    if v2 == 'sat':
+                        m, v = m2, 'sat'
+                        inst['verdict'] = 'sat'
+                    elif v2 == 'unknown':
+                        inst['reason'] = 'residual obligation undecided: %s' % (m2,)
+                if v == 'sat' and inst.get('residual') != 'unsat':
+                    txt = 'path %d (%s); events=%s\n' % (pi, p.describe(), [e[:3] for e in p.run.events][:30])
+                    txt += model_text(m, witness_terms(p) if witness_terms else None)
+                    inst['model'] = txt
+                    if on_violation is not None:
+                        try:
+                            inst['replay'], inst['reproduced'] = on_violation(n, p, m)
+                        except Exception as e:  # replay construction must never turn into a verdict
+                            inst['replay'], inst['reproduced'] = {'replay_error': repr(e)}, None
+            out['instances'].append(inst)
+    return out
+
+
+def verify_function(chk, fname, entry, post=None, timeout_ms=10000, max_paths=4000, expect_paths=1,
+                    witness_terms=None, on_violation=None, known=None, path_timeout_ms=1500, deadline_s=None,
+                    allow_end_only=False, workers=1, only=None, rename=None, refute=None):
+    """
+    entry(it) -> value            : sets up symbolic inputs and calls the real function
+    post(path) -> [(name, formula[, 'lemma'])] : postcondition instances for a terminated path (kind return/raise);
+           a proved 'lemma' is added to the hypotheses of the later obligations of the same path (cut rule)
+    known: dict obligation-name -> (description, cls_fn) where cls_fn(path) -> z3 Bool: the finding's witness class;
+           the residual obligation `formula or in_class` must still be proved, else it is a violation
+    only:  optional predicate on obligation names: which aggregated obligations are recorded into `chk`
+    """
+    global _SPEC
+    t0 = time.time()
+    fr = FunctionResult()
+    base = (entry, post, known, witness_terms, on_violation, timeout_ms, max_paths, path_timeout_ms, deadline_s)
+    if workers > 1:
+        _SPEC = base
+        ctx = multiprocessing.get_context('fork')
+        with ctx.Pool(workers) as pool:
+            outs = pool.map(_work_idx, [(w, workers) for w in range(workers)])
+        _SPEC = None
+    else:
+        outs = [_work(base + (0, 1))]
+    fr.paths = outs[0]['paths']
+    for o in outs:
+        fr.instances += o['instances']
+        fr.inlined |= o['inlined']
+        fr.assumed |= o['assumed']
+    for a in sorted(fr.assumed):
+        chk.assume(a)
+    bad = sorted({d for k, d in fr.paths if k == 'unsupported'})
+    if bad:
+        chk.obligation('%s.supported' % fname, fname, 'checker', report.ERROR, 0.0,
+                       detail='the real code of %s left the supported subset: %s' % (fname, '; '.join(bad)[:1500]))
+        fr.unsupported = bad
+    live = [1 for k, d in fr.paths if k in ('return', 'raise')]
+    if len(live) < expect_paths and not allow_end_only:
+        chk.obligation('%s.vacuity' % fname, fname, 'checker', report.ERROR, 0.0,
+                       detail='only %d terminating paths explored (expected >= %d)' % (len(live), expect_paths))
+    by_name = {}
+    for i in sorted(fr.instances, key=lambda i: (i['pi'])):
+        by_name.setdefault(i['name'], []).append(i)
+    fr.by_name = by_name
+    refuted = {}
+    if refute is not None:
+        # obligations that are neither proved nor definitely refuted: bounded model query (DESIGN 2.5)
+        open_names = [n for n, insts in by_name.items() if (only is None or only(n))
+                      and any(i['verdict'] != 'unsat' and i.get('residual') != 'unsat' for i in insts)
+                      and not any(i['verdict'] == 'sat' and i.get('reproduced') for i in insts)]
+        if open_names:
+            refuted = refute(open_names) or {}
+    for n, insts in by_name.items():
+        if only is not None and not only(n):
+            continue
+        if rename is not None:
+            n = rename(n)
+        tsum = sum(i['dt'] for i in insts)
+        bad_i = [i for i in insts if i['verdict'] != 'unsat']
+        detail = {'instances': len(insts), 'paths': len({i['pi'] for i in insts})}
+        if insts[0]['lemma']:
+            detail['role'] = 'lemma (cut): proved here, used as hypothesis by later obligations of the same path'
+        if not bad_i:
             chk.obligation(n, fname, 'z3', report.PROVED, tsum, detail=detail)
+            continue
+        n0 = insts[0]['name']
+        if known and n0 in known and all(i.get('residual') == 'unsat' for i in bad_i):
+            chk.obligation(n, fname, 'z3', report.KNOWN, tsum, detail=detail, finding=known[n0][0])
+            continue
+        sats = [i for i in bad_i if i['verdict'] == 'sat' and i.get('residual') != 'unsat']
+        if n0 in refuted:
+            mtxt, rep, reproduced = refuted[n0][0], refuted[n0][1], refuted[n0][2]
+            detail['refuted_by'] = 'bounded model query (explicit finite datastore view, loops unrolled): solver sat'
+            if reproduced is False:
+                # the bounded counter-model does not reproduce on the real code: spurious, stay undecided
+                detail['reason'] = 'bounded counter-model not reproduced on the real code'
+                chk.obligation(n, fname, 'z3', report.UNDECIDED, tsum, detail=detail)
+            else:
+                chk.obligation(n, fname, 'z3+bounded-model-query', report.VIOLATED, tsum, detail=detail, model=mtxt, replay=rep,
+                               reproduced=reproduced)
+            continue
+        if sats:
+            i = sats[0]
+            detail['failing_path'] = i['describe']
+            chk.obligation(n, fname, 'z3', report.VIOLATED, tsum, detail=detail, model=i.get('model', ''),
+                           replay=i.get('replay'), reproduced=i.get('reproduced'))
+        else:
+            unk = [i for i in bad_i if i.get('residual') != 'unsat']
+            detail['reason'] = unk[0].get('reason', '')
+            detail['undecided_paths'] = [(i['pi'], i['describe'][:60]) for i in unk][:12]
+            chk.obligation(n, fname, 'z3', report.UNDECIDED, tsum, detail=detail)
     fr.wall = time.time() - t0
     return fr
